@@ -11,6 +11,7 @@ import MosnVerif.Model.PoolRecover
 import MosnVerif.Drive.C08H2
 import MosnVerif.Drive.C08Dubbo
 import MosnVerif.Drive.C08H1
+import MosnVerif.Drive.C08Set
 /-! driver of C08 (malformed input contained): see `run` for the case kinds. Core Lean only. -/
 namespace MosnVerif.Drive.C08
 open MosnVerif.Drive MosnVerif.Model.Framing MosnVerif.Model.FrameBytes MosnVerif.Model.FrameChk MosnVerif.Model.KVBlock
@@ -280,6 +281,7 @@ def run (caseToks impl : List String) : String :=
   | ["hpack", mx, bytes] => hpackK mx bytes impl
   | ["hpackx", mx, blocks] => hpackX mx blocks impl
   | ["h2up", method, frames] => h2up method frames impl
+  | ["h2set", setting, hdr, body] => MosnVerif.Drive.C08Set.h2set setting hdr body impl
   | ["disp", proto, bytes] => disp proto bytes impl
   | ["pool", api, st] => pool api st impl
   | ["dmeta", listener, kinds, nargs, _] => MosnVerif.Drive.C08Dubbo.dmeta listener kinds nargs impl
